@@ -11,9 +11,13 @@ EXTENDS Brc20Ref, Json, IOUtils, TLCExt
 Rec == ndJsonDeserialize(IOEnv.TRACE)
 
 VARIABLES l,
-          pred      \* the last eth_call at a block boundary: [tx, ok, out], valid until the state changes (C17)
+          pred,     \* the last eth_call at a block boundary: [tx, ok, out], valid until the state changes (C17)
+          torn      \* C04: [on, cap] - the process died inside commit/reorg; until a reorg to a durable height
+                    \* <= cap the observable state is unconstrained
 
-tvars == <<chain, cur, world, pool, snaps, maxEver, dur, l, pred>>
+tvars == <<chain, cur, world, pool, snaps, maxEver, dur, l, pred, torn>>
+
+NotTorn == [on |-> FALSE, cap |-> 0]
 
 NoPred == [tx |-> [kind |-> "none"], ok |-> FALSE, out |-> "none"]
 
@@ -136,7 +140,36 @@ InitVals ==
   /\ maxEver' = -1
   /\ dur' = [chain |-> <<>>, world |-> EmptyWorld, pool |-> <<>>, snaps |-> <<>>]
 
-TrReset == IsEv("Reset") /\ InitVals /\ pred' = NoPred
+TrReset == IsEv("Reset") /\ InitVals /\ pred' = NoPred /\ torn' = NotTorn
+
+(* C04: the process dies before persistent write `at` of the operation.                            *)
+(*  finalise: the block is lost with everything uncommitted (like a restart)                       *)
+(*  commit  : heights committed before stay recoverable: cap = durable height                      *)
+(*  reorg(n): cap = min(durable height, n)                                                         *)
+DurHeight == Len(dur.chain) - 1
+TrCrash ==
+  /\ IsEv("Crash")
+  /\ IF E.during = "finalise"
+     THEN FallBack /\ torn' = NotTorn
+     ELSE /\ UNCHANGED vars
+          /\ torn' = [on |-> TRUE, cap |-> IF E.during = "reorg" /\ E.n < DurHeight THEN E.n ELSE DurHeight]
+  /\ pred' = NoPred
+
+TrReopen == IsEv("Reopen") /\ Chk("reopen", E.res = "ok") /\ UNCHANGED <<vars, torn>> /\ pred' = NoPred
+
+(* the recovering reorg: to a height committed before the crash, not above the interrupted reorg's target, inside the window *)
+TrRecover ==
+  /\ IsEv("Reorg") /\ torn.on
+  /\ Chk("recover-target-admissible", E.n >= 0 /\ E.n <= torn.cap /\ maxEver <= E.n + W)    \* the harness only asks admissible targets
+  /\ Chk("recover-accepted", E.res = "ok")
+  /\ chain' = SubSeq(chain, 1, E.n + 1)
+  /\ snaps' = SubSeq(snaps, 1, E.n + 1)
+  /\ world' = snaps[E.n + 1].world
+  /\ pool' = snaps[E.n + 1].pool
+  /\ cur' = NoCur
+  /\ dur' = [chain |-> chain', world |-> world', pool |-> pool', snaps |-> snaps']
+  /\ UNCHANGED maxEver
+  /\ torn' = NotTorn /\ pred' = NoPred
 
 (* C17: the transaction executed right after an eth_call with the same sender, target and data *)
 (* has the predicted success flag and return data                                               *)
@@ -217,7 +250,7 @@ TrTransact ==
      ELSE IF E.res = "ok"
      THEN LET n0 == Nonce(world, E.tx.from)
               ns == DrainSeq(pool, E.tx.from, n0 + 1)
-              keysAfter == {<<E.obs.pool[i].signer, E.obs.pool[i].nonce>> : i \in DOMAIN E.obs.pool}
+              keysAfter == {<<E.pool_after[i].signer, E.pool_after[i].nonce>> : i \in DOMAIN E.pool_after}
               drained == [k \in (DOMAIN pool) \ {<<E.tx.from, n>> : n \in {ns[j] : j \in DOMAIN ns}} |-> pool[k]]
               pnew == [k \in (DOMAIN drained) \cap keysAfter |-> drained[k]]
           IN  /\ Chk("own-chain", E.chain = "own")
@@ -247,7 +280,7 @@ TrClear == IsEv("Clear") /\ Chk("res", E.res = "ok") /\ FallBack
 TrRestart == IsEv("Restart") /\ Chk("res", E.res = "ok") /\ FallBack
 
 TrReorg ==
-  /\ IsEv("Reorg")
+  /\ IsEv("Reorg") /\ ~torn.on
   /\ IF E.res = "ok"
      THEN IF ReorgAcceptable(E.n) THEN ReorgOk(E.n)
           \* a reorg to the current height changes nothing whatever the window says
@@ -296,12 +329,13 @@ TrGetLogs ==
   /\ UNCHANGED vars
 
 TraceNext ==
-  /\ \/ TrReset \/ TrEthCall \/ TrEstimate \/ TrCallMany \/ TrGetLogs
+  /\ \/ TrReset \/ TrCrash \/ TrReopen \/ TrRecover
+     \/ ((TrEthCall \/ TrEstimate \/ TrCallMany \/ TrGetLogs) /\ UNCHANGED torn)
      \/ ((TrInitialise \/ TrMine \/ TrAddTx \/ TrTransact \/ TrFinalise \/ TrCommit \/ TrClear \/ TrRestart \/ TrReorg)
-          /\ pred' = NoPred)
-  /\ (Rec[l].ev \in {"Reset", "GetLogs"} \/ ObsOK(Rec[l].obs, Post))
+          /\ pred' = NoPred /\ UNCHANGED torn)
+  /\ (Rec[l].ev \in {"Reset", "GetLogs", "Crash", "Reopen"} \/ "noobs" \in DOMAIN Rec[l] \/ ObsOK(Rec[l].obs, Post))
 
-TraceInit == Init /\ l = 1 /\ pred = NoPred
+TraceInit == Init /\ l = 1 /\ pred = NoPred /\ torn = NotTorn
 
 TraceSpec == TraceInit /\ [][TraceNext]_tvars
 
